@@ -83,6 +83,31 @@ class Case(object):
                                            dict(self.witness, at=where, id=rid, prefix=prefix))
         self.ctx.count('invariant_evaluations')
 
+    def after_crash_reads(self, fake, crashed_id):
+        """Other processes keep reading the bucket the crashed save left behind (possibly a full object without its metadata
+        object): read-only cassettes must still never write, whatever they are asked by id."""
+        from playback.exceptions import NoSuchRecording
+        for prefix in PREFIXES:
+            n0 = len(fake.log)
+            before = fake.snapshot()
+            ro = fake.cassette('ro-after-crash', key_prefix=prefix, read_only=True)
+            for call in (ro.get_recording_metadata, ro.get_recording):
+                try:
+                    call(crashed_id)
+                except NoSuchRecording:
+                    pass
+                except Exception as ex:
+                    self.ctx.count('after_crash_read_errors_' + type(ex).__name__)
+            try:
+                list(ro.iter_recording_ids(CATS[0]))
+                ro.close()
+            except Exception:
+                pass
+            self.ctx.count('after_crash_read_only_probes')
+            if len(fake.log) != n0 or fake.snapshot() != before:
+                self.ctx.violation('read-only cassette performed a bucket %s while reading what a crashed save left behind' % (fake.log[n0][1] if len(fake.log) > n0 else 'change'),
+                                   dict(self.witness, prefix=prefix, id=crashed_id, mutations=[m[1:] for m in fake.log[n0:]][:3]))
+
     def run(self):
         ctx, rng = self.ctx, self.rng
         self.gen()
@@ -142,6 +167,7 @@ class Case(object):
                             fake.crash_at = None
                             in_save[0] = None
                             self.invariant(fake, 'after crash before mutation %d of save %d' % (self.crash[1], self.crash[0]))
+                            self.after_crash_reads(fake, rec.id)
                             break     # the process died; the bucket is what it is
                         finally:
                             in_save[0] = None
@@ -217,7 +243,78 @@ def run_case(ctx, seed, with_crashes=True):
     return c
 
 
+def concurrent_saves(ctx):
+    """Several threads save their own recordings through ONE writable cassette (a cassette object is shared by everything that
+    records in a process). Explored with the deterministic scheduler at source-line granularity of the S3 modules: afterwards every
+    recording must be completely fetchable and every bucket key must belong to one of the saved recordings."""
+    from vlib import sched as S
+    import playback.tape_cassettes.s3.s3_basic_facade as fmod
+    import playback.tape_cassettes.s3.s3_tape_cassette as cmod
+    tg = [fmod.__file__, cmod.__file__]
+    for nthreads, prefix in ((2, 'a'), (3, '')):
+        holder = {}
+
+        def make(sched, nthreads=nthreads, prefix=prefix, holder=holder):
+            fake = FakeS3()
+            cm = fake.installed()
+            cm.__enter__()
+            c = fake.cassette('w', key_prefix=prefix, read_only=False, infrequent_access_kb_threshold=0.001)
+            ids = {}
+            holder.update(fake=fake, cm=cm, ids=ids)
+
+            def worker(i):
+                def fn():
+                    rec = c.create_new_recording('Op')
+                    rec.set_data('who', 'thread-%d' % i)
+                    rec.add_metadata({'who': i})
+                    ids[i] = rec.id
+                    c.save_recording(rec)
+                return fn
+
+            def main():
+                ths = [sched.Thread(target=worker(i), name='saver%d' % i) for i in range(nthreads)]
+                for t in ths:
+                    t.start()
+                for t in ths:
+                    t.join()
+            return main
+
+        def on_run(rec, desc, nthreads=nthreads, prefix=prefix, holder=holder):
+            fake, ids = holder['fake'], holder['ids']
+            w = {'concurrent_saves': nthreads, 'prefix': prefix, 'schedule': desc if isinstance(desc, tuple) else list(desc)}
+            try:
+                ctx.case(rec.trace, nontrivial=len(rec.points) > 0)
+                ctx.count('concurrent_save_schedules')
+                if rec.aborted or rec.error is not None:
+                    if rec.aborted and 'deadlock' in rec.aborted:
+                        ctx.violation('concurrent saves deadlocked', w)
+                    elif rec.error is not None:
+                        ctx.violation('concurrent save raised %s' % type(rec.error).__name__, dict(w, error=repr(rec.error)[:200]))
+                    return
+                rd = fake.cassette('r', key_prefix=prefix, read_only=True)
+                listed = set(rd.iter_recording_ids('Op'))
+                for i, rid in ids.items():
+                    try:
+                        got = rd.get_recording(rid)
+                        md = rd.get_recording_metadata(rid)
+                        ok = got.get_data('who') == 'thread-%d' % i and md == {'who': i} and got.get_metadata() == {'who': i}
+                    except Exception as ex:
+                        ok = False
+                    if not ok or rid not in listed:
+                        ctx.violation('recording saved concurrently with another one is not completely / correctly stored', dict(w, thread=i))
+                        break
+                if len(fake.snapshot()) != 2 * len(ids):
+                    ctx.violation('concurrent saves left %d objects for %d recordings' % (len(fake.snapshot()), len(ids)), w)
+            finally:
+                holder['cm'].__exit__(None, None, None)
+        shard = (ctx.shard, ctx.nshards) if ctx.nshards > 1 else None
+        runs, complete = S.explore_dfs(make, tg, 1, on_run, max_runs=250 if ctx.quick else 4000, shard=shard)
+        ctx.count('concurrent_save_dfs', runs)
+        S.explore_random(make, tg, ctx.budget(40, 3000), ctx.rng, on_run)
+
+
 def run(ctx):
+    concurrent_saves(ctx)
     from playback.tape_cassettes.s3.s3_tape_cassette import S3TapeCassette
     env.anchor(S3TapeCassette, '_save_recording')
     n = ctx.budget(300, 20000)
